@@ -179,9 +179,10 @@ CLAIMED = {
          "forms solved exhaustively, convert_solution, remove_ancilla_from_solution) against the model and an enumeration oracle.",
     note="Trusted: Coq kernel + vm_compute; no axioms; hand-written models; harness. C08_sequence discharges every hypothesis of "
          "the abstract theorem for any number of comparison constraints on a PCBO (independence from later ancillas comes from "
-         "C02_ancilla_bound). Not proved as one statement: sequences mixing logic constraints, the PCSO variant of the "
-         "sequence theorem, and the composition of C08_sequence with degree reduction for n > 1 (C08_reduced is stated for one "
-         "constraint; the argument is the same); those workflows are covered by the correspondence run and the oracle.",
+         "C02_ancilla_bound); C08_sequence_reduced continues through any degree reduction and convert_solution. Not proved as "
+         "one statement: sequences mixing logic constraints and the PCSO variant of the sequence theorem; those workflows "
+         "are covered by the correspondence run and the oracle. Inv of the constrained model is a hypothesis of the reduced "
+         "form (the C14 invariant is proved for the edits of C14, not for the constraint methods).",
     technique="Coq proof (exchange argument over penalties, composed with the C01 and C02 theorems) + model/implementation correspondence", ref="§5 C08"),
  "C11": dict(
     text="Coq theorems about the Gallina transcription of both C kernels and of the Python front end's packaging: "
